@@ -231,7 +231,8 @@ def configs(tier):
     # drain when the scheduler says so and which may go on delivering what
     # is in flight after loseConnection()
     return [{"fixed": False}, {"fixed": False}, {"fixed": False},
-            {"two_sessions": True}, {"fixed": False, "junk_first": True}]
+            {"two_sessions": True}, {"fixed": False, "junk_first": True},
+            {"fixed": False, "backlog": True}]
 
 
 def run_two_sessions(seed, tape, opts):
@@ -465,8 +466,12 @@ def run_one(seed, tape, opts):
     early = {"l2f": [], "f2l": []}
     if not opts.get("fixed") and not opts.get("wrong_psk"):
         for d, mg in (("l2f", ML), ("f2l", MF)):
-            early[d] = [gen_record(tape, 50 + i)
-                        for i in range(tape.choose(4, "nearly"))]
+            n_early = tape.choose(4, "nearly")
+            if opts.get("backlog"):
+                # a side that comes back with a backlog: everything unacked
+                # is written right behind the KCM, in the selection turn
+                n_early = 40 + tape.choose(120, "nbacklog")
+            early[d] = [gen_record(tape, 50 + i) for i in range(n_early)]
             mg.early = list(early[d])
         if early["l2f"] or early["f2l"]:
             sim.note("probe.records_sent_in_the_selection_turn")
